@@ -4,38 +4,38 @@ package kvql
 
 // Contracts for the String methods of expression.go (property C15, "printed form"). Comment-only.
 //
-// render(e) is the canonical, fully parenthesised text of an expression as the documentation and
+// rtext(e) is the canonical, fully parenthesised text of an expression as the documentation and
 // EXPLAIN show it: literals and names as written, text literals between single quotes, every
 // binary node as "(left op right)" with the operator's documented spelling, BETWEEN as
 // "(x BETWEEN lo AND hi)", negation as "!(x)", calls as "name(a, b)", lists as "(a, b)", field
 // access as "x[f]", alias references between back quotes. The axioms below are that definition,
 // node kind by node kind (they are the specification, instantiated only inside the String
-// methods); every String method is proved to return exactly render(e).
-// renderN(e, n): the first n arguments / items of a call / list node, rendered and joined by ", ".
-//@ specfun render(Int) B
-//@ specfun renderN(Int, Int) B
+// methods); every String method is proved to return exactly rtext(e).
+// rtextN(e, n): the first n arguments / items of a call / list node, rendered and joined by ", ".
+//@ specfun rtext(Int) B
+//@ specfun rtextN(Int, Int) B
 //
 //@ define opText(op Int) B = ite(op == Eq, "=", ite(op == NotEq, "!=", ite(op == And, "&", ite(op == Or, "|", ite(op == Not, "!", ite(op == PrefixMatch, "^=", ite(op == RegExpMatch, "~=", ite(op == Add, "+", ite(op == Sub, "-", ite(op == Mul, "*", ite(op == Div, "/", ite(op == Gt, ">", ite(op == Gte, ">=", ite(op == Lt, "<", ite(op == Lte, "<=", ite(op == In, "in", ite(op == Between, "between", ite(op == KWAnd, "and", ite(op == KWOr, "or", "")))))))))))))))))))
 //@ define kwText(f Int) B = ite(f == KeyKW, "KEY", ite(f == ValueKW, "VALUE", ""))
 //@ define childOf(x Expression, i Int) Expression = ite(is(x, *FunctionCallExpr), as(x, *FunctionCallExpr).Args[i], as(x, *ListExpr).List[i])
 //
-//@ axiom r_field(x Expression): is(x, *FieldExpr) ==> render(x) == kwText(as(x, *FieldExpr).Field)
-//@ axiom r_str(x Expression): is(x, *StringExpr) ==> render(x) == cat(cat("'", val(as(x, *StringExpr).Data)), "'")
-//@ axiom r_num(x Expression): is(x, *NumberExpr) ==> render(x) == val(as(x, *NumberExpr).Data)
-//@ axiom r_float(x Expression): is(x, *FloatExpr) ==> render(x) == val(as(x, *FloatExpr).Data)
-//@ axiom r_bool(x Expression): is(x, *BoolExpr) ==> render(x) == val(as(x, *BoolExpr).Data)
-//@ axiom r_name(x Expression): is(x, *NameExpr) ==> render(x) == val(as(x, *NameExpr).Data)
-//@ axiom r_ref(x Expression): is(x, *FieldReferenceExpr) ==> render(x) == cat(cat("`", val(as(x, *FieldReferenceExpr).Name.Data)), "`")
-//@ axiom r_not(x Expression): is(x, *NotExpr) ==> render(x) == cat(cat("!(", render(as(x, *NotExpr).Right)), ")")
-//@ axiom r_access(x Expression): is(x, *FieldAccessExpr) ==> render(x) == cat(cat(cat(render(as(x, *FieldAccessExpr).Left), "["), render(as(x, *FieldAccessExpr).FieldName)), "]")
-//@ axiom r_bin(x Expression): is(x, *BinaryOpExpr) ==> render(x) == ite(as(x, *BinaryOpExpr).Op == Between && is(as(x, *BinaryOpExpr).Right, *ListExpr) && len(as(as(x, *BinaryOpExpr).Right, *ListExpr).List) == 2, cat(cat(cat(cat(cat(cat("(", render(as(x, *BinaryOpExpr).Left)), " BETWEEN "), render(as(as(x, *BinaryOpExpr).Right, *ListExpr).List[0])), " AND "), render(as(as(x, *BinaryOpExpr).Right, *ListExpr).List[1])), ")"), cat(cat(cat(cat(cat(cat("(", render(as(x, *BinaryOpExpr).Left)), " "), opText(as(x, *BinaryOpExpr).Op)), " "), render(as(x, *BinaryOpExpr).Right)), ")"))
-//@ axiom r_call(x Expression): is(x, *FunctionCallExpr) ==> render(x) == cat(cat(cat(render(as(x, *FunctionCallExpr).Name), "("), renderN(x, len(as(x, *FunctionCallExpr).Args))), ")")
-//@ axiom r_list(x Expression): is(x, *ListExpr) ==> render(x) == cat(cat("(", renderN(x, len(as(x, *ListExpr).List))), ")")
-//@ axiom r_items(x Expression, n Int): renderN(x, n) == ite(n <= 0, "", ite(n == 1, render(childOf(x, 0)), cat(cat(renderN(x, n - 1), ", "), render(childOf(x, n - 1)))))
+//@ axiom r_field(x Expression): is(x, *FieldExpr) ==> rtext(x) == kwText(as(x, *FieldExpr).Field)
+//@ axiom r_str(x Expression): is(x, *StringExpr) ==> rtext(x) == cat(cat("'", val(as(x, *StringExpr).Data)), "'")
+//@ axiom r_num(x Expression): is(x, *NumberExpr) ==> rtext(x) == val(as(x, *NumberExpr).Data)
+//@ axiom r_float(x Expression): is(x, *FloatExpr) ==> rtext(x) == val(as(x, *FloatExpr).Data)
+//@ axiom r_bool(x Expression): is(x, *BoolExpr) ==> rtext(x) == val(as(x, *BoolExpr).Data)
+//@ axiom r_name(x Expression): is(x, *NameExpr) ==> rtext(x) == val(as(x, *NameExpr).Data)
+//@ axiom r_ref(x Expression): is(x, *FieldReferenceExpr) ==> rtext(x) == cat(cat("`", val(as(x, *FieldReferenceExpr).Name.Data)), "`")
+//@ axiom r_not(x Expression): is(x, *NotExpr) ==> rtext(x) == cat(cat("!(", rtext(as(x, *NotExpr).Right)), ")")
+//@ axiom r_access(x Expression): is(x, *FieldAccessExpr) ==> rtext(x) == cat(cat(cat(rtext(as(x, *FieldAccessExpr).Left), "["), rtext(as(x, *FieldAccessExpr).FieldName)), "]")
+//@ axiom r_bin(x Expression): is(x, *BinaryOpExpr) ==> rtext(x) == ite(as(x, *BinaryOpExpr).Op == Between && is(as(x, *BinaryOpExpr).Right, *ListExpr) && len(as(as(x, *BinaryOpExpr).Right, *ListExpr).List) == 2, cat(cat(cat(cat(cat(cat("(", rtext(as(x, *BinaryOpExpr).Left)), " BETWEEN "), rtext(as(as(x, *BinaryOpExpr).Right, *ListExpr).List[0])), " AND "), rtext(as(as(x, *BinaryOpExpr).Right, *ListExpr).List[1])), ")"), cat(cat(cat(cat(cat(cat("(", rtext(as(x, *BinaryOpExpr).Left)), " "), opText(as(x, *BinaryOpExpr).Op)), " "), rtext(as(x, *BinaryOpExpr).Right)), ")"))
+//@ axiom r_call(x Expression): is(x, *FunctionCallExpr) ==> rtext(x) == cat(cat(cat(rtext(as(x, *FunctionCallExpr).Name), "("), rtextN(x, len(as(x, *FunctionCallExpr).Args))), ")")
+//@ axiom r_list(x Expression): is(x, *ListExpr) ==> rtext(x) == cat(cat("(", rtextN(x, len(as(x, *ListExpr).List))), ")")
+//@ axiom r_items(x Expression, n Int): rtextN(x, n) == ite(n <= 0, "", ite(n == 1, rtext(childOf(x, 0)), cat(cat(rtextN(x, n - 1), ", "), rtext(childOf(x, n - 1)))))
 //
 //@ iface (e Expression) String() (r string)
 //@   assigns nothing
-//@   ensures[C15] text: val(r) == render(e)
+//@   ensures[C15] text: val(r) == rtext(e)
 //
 //@ func (e *FieldExpr) String() (r string) implements Expression.String
 //@   props C15
@@ -94,7 +94,7 @@ package kvql
 //@   use r_call(e)
 //@   loop 0
 //@     invariant fresh(args) && len(args) == len(e.Args)
-//@     invariant[C15] sofar: -1 <= rangeindex && rangeindex < len(e.Args) && joinedN(args, rangeindex + 1, ", ") == renderN(e, rangeindex + 1)
+//@     invariant[C15] sofar: -1 <= rangeindex && rangeindex < len(e.Args) && joinedN(args, rangeindex + 1, ", ") == rtextN(e, rangeindex + 1)
 //@     use r_items(e, rangeindex + 1)
 //@     use r_items(e, rangeindex + 2)
 //
@@ -104,6 +104,6 @@ package kvql
 //@   use r_list(e)
 //@   loop 0
 //@     invariant fresh(ret) && len(ret) == len(e.List)
-//@     invariant[C15] sofar: -1 <= rangeindex && rangeindex < len(e.List) && joinedN(ret, rangeindex + 1, ", ") == renderN(e, rangeindex + 1)
+//@     invariant[C15] sofar: -1 <= rangeindex && rangeindex < len(e.List) && joinedN(ret, rangeindex + 1, ", ") == rtextN(e, rangeindex + 1)
 //@     use r_items(e, rangeindex + 1)
 //@     use r_items(e, rangeindex + 2)
